@@ -10,6 +10,10 @@ extra_props = sys.argv[4:]  # further properties whose checks are also run
 env = dict(os.environ, GOFLAGS='-mod=mod', GOPROXY='off', GOSUMDB='off', GOTOOLCHAIN='local'); env.pop('GOWORK', None)
 wt = f'/tmp/cs/{sid}'
 def sh(cmd, cwd=None, check=False):
+    if cmd.startswith('go test'):
+        # own network namespace: the suite's NATS tests bind a fixed port, so
+        # confirmations running side by side would disturb each other
+        cmd = "unshare -n bash -c " + __import__('shlex').quote("ip link set lo up; " + cmd)
     r = subprocess.run(cmd, shell=True, cwd=cwd, env=env, capture_output=True, text=True)
     if check and r.returncode != 0: raise SystemExit(f'FAILED: {cmd}\n{r.stdout[-2000:]}{r.stderr[-2000:]}')
     return r
